@@ -75,7 +75,7 @@ func (r *Run) lockKey(fn *Func, x ast.Expr) string {
 	if se, ok := ast.Unparen(x).(*ast.SelectorExpr); ok {
 		if sel, ok := fn.Info().Selections[se]; ok && sel.Kind() == types.FieldVal {
 			if nt, ok := derefNamedT(sel.Recv()); ok {
-				return nt.Obj().Name() + "." + sel.Obj().Name()
+				return r.P.OwnerName(nt) + "." + sel.Obj().Name()
 			}
 		}
 	}
@@ -211,7 +211,7 @@ func (r *Run) collectAccesses(root *Func, path *Path, held []lockset, sink func(
 		rec := func(x ast.Expr, write bool) {
 			r.walkFields(ev.Fn, info, x, write, func(se *ast.SelectorExpr, fv *types.Var, owner *types.Named, w bool) {
 				base := r.P.Canon(ev.Fn, se.X)
-				sink(fieldAccess{Field: fv, Owner: owner.Obj().Name(), Write: w, Held: held[i], Fn: root, In: ev.Fn, Pos: se.Sel.Pos(),
+				sink(fieldAccess{Field: fv, Owner: r.P.OwnerName(owner), Write: w, Held: held[i], Fn: root, In: ev.Fn, Pos: se.Sel.Pos(),
 					Fresh: strings.HasPrefix(base, "&lit:") || strings.HasPrefix(base, "lit:"), Base: base})
 			})
 		}
@@ -619,8 +619,8 @@ func ruleGuardedBy(r *Run) {
 	})
 	sharedOwners := map[string]bool{}
 	for n := range muts {
-		if _, pc := perConnection[n.Obj().Name()]; !pc {
-			sharedOwners[n.Obj().Name()] = true
+		if _, pc := perConnection[r.P.OwnerName(n)]; !pc {
+			sharedOwners[r.P.OwnerName(n)] = true
 		}
 	}
 	// state types reachable from a session without a lock of their own are shared too
@@ -633,7 +633,7 @@ func ruleGuardedBy(r *Run) {
 		if !sharedOwners[k.owner] {
 			hasOwnMutex := false
 			for n := range muts {
-				if n.Obj().Name() == k.owner {
+				if r.P.OwnerName(n) == k.owner {
 					hasOwnMutex = true
 				}
 			}
